@@ -37,7 +37,9 @@ func c10(r *core.Run) {
 		"(a nested function cannot disable the enclosing function's post-conditions); every `return` compiles to a jump to the post-conditions when the function has any."
 	r.NotDecided = "outcome equivalence of the two engines per program (C34); correctness of the post-condition rewrite (`before` extraction)."
 	w := r.W
-	named := func(n string) func(*types.Func) bool { return func(o *types.Func) bool { return o != nil && o.Name() == n } }
+	named := func(n string) func(*types.Func) bool {
+		return func(o *types.Func) bool { return o != nil && o.Name() == n }
+	}
 
 	// R1
 	if fn := mustFn(r, "R1.order", "interpreter", "Interpreter", "visitFunctionBody"); fn != nil {
